@@ -137,7 +137,7 @@ func execWriterRun(run *writerRun, data []byte) ([]tr.Ev, []byte) {
 		var m int
 		var e error
 		panicked := false
-		if !guard(func() {
+		if !guardBytes(len(data), func() {
 			defer func() {
 				if p := recover(); p != nil {
 					panicked = true
@@ -167,7 +167,7 @@ func execWriterRun(run *writerRun, data []byte) ([]tr.Ev, []byte) {
 		if hung {
 			return errHung
 		}
-		if !guard(func() {
+		if !guardBytes(len(data), func() {
 			defer func() {
 				if p := recover(); p != nil {
 					panicked = true
@@ -264,7 +264,11 @@ var errHung = fmt.Errorf("call did not return (watchdog)")
 
 // guard runs f and reports whether it returned within the watchdog delay. A call that never returns is a violation
 // of C07/C03 (every call terminates); its goroutines are abandoned and die with the process.
-func guard(f func()) bool {
+func guard(f func()) bool { return guardBytes(0, f) }
+
+// guardBytes: the bound grows with the amount of data the call has to process (the slowest codecs manage a few hundred KB/s
+// on a busy machine): 45 s + 1 s per 100 KB
+func guardBytes(n int, f func()) bool {
 	done := make(chan struct{})
 	go func() {
 		defer close(done)
@@ -273,7 +277,7 @@ func guard(f func()) bool {
 	select {
 	case <-done:
 		return true
-	case <-time.After(watchdogDelay):
+	case <-time.After(watchdogDelay + time.Duration(n/100000)*time.Second):
 		atomic.AddInt32(&hangCount, 1)
 		return false
 	}
